@@ -1,1 +1,34 @@
-//! placeholder
+//! Harnesses compiled inside `crate::session` (C18). `SessionRequest`/`Headers` are
+//! `HashMap<String, String>` wrappers: symbolic strings are out of CBMC's reach, so these harnesses
+//! use CONCRETE field names (bounded stand-ins, never counted as proved); the admission predicate
+//! for ALL header maps is the Verus unit `session`.
+#![allow(dead_code, unused_imports, missing_docs)]
+use super::*;
+
+fn str_eq(a: &str, b: &str) -> bool {
+    let (a, b) = (a.as_bytes(), b.as_bytes());
+    if a.len() != b.len() {
+        return false;
+    }
+    let mut i = 0;
+    while i < a.len() {
+        if a[i] != b[i] {
+            return false;
+        }
+        i += 1;
+    }
+    true
+}
+
+// (A harness driving `SessionRequest::insert` through the real `HashMap<String, String>` does not
+// terminate in CBMC even with concrete field names - measured: no answer in 25 minutes.)
+
+/// The reserved list is exactly the five WebTransport pseudo-headers.
+#[kani::proof]
+#[kani::unwind(20)]
+pub fn p_reserved_headers_list() {
+    let r = SessionRequest::RESERVED_HEADERS;
+    assert!(r.len() == 5);
+    assert!(str_eq(r[0], ":method") && str_eq(r[1], ":scheme") && str_eq(r[2], ":protocol"));
+    assert!(str_eq(r[3], ":authority") && str_eq(r[4], ":path"));
+}
